@@ -58,6 +58,23 @@ def _run_classical(ctx, spec, rng):
     if cl is not FAILED:
         ctx.check("O3:classical=bruteforce", None, dev=abs(float(cl) - want), tol=1e-9, sig=("classical-only", x, y, kind, dup), nt=True, mech="xor:classical-mismatch",
                   detail={"prob": prob, "pred": pred, "library": cl, "bruteforce": want, "repeated_predicate_columns": dup})
+    if spec[1] % 5 == 0 and 2 <= x * y <= 6 and max(x, y) <= 3:
+        # two parallel repetitions (both copies must be won), also for unequal question counts: brute force on the explicitly built product game
+        g2 = ctx.call(XORGame, prob.copy(), pred.copy(), 2)
+        if g2 is not FAILED:
+            p4 = np.zeros((2, 2, x, y))
+            for a_, b_ in itertools.product(range(2), repeat=2):
+                p4[a_, b_] = ((a_ ^ b_) == pred).astype(float)
+            prob2 = np.einsum("xy,uv->xuyv", prob, prob).reshape(x * x, y * y)
+            pred2 = np.einsum("abxy,cduv->acbdxuyv", p4, p4).reshape(4, 4, x * x, y * y)
+            if x > y:  # enumerate the player with fewer deterministic strategies
+                want2 = ref.classical_value(prob2.T.copy(), pred2.transpose(1, 0, 3, 2).copy())
+            else:
+                want2 = ref.classical_value(prob2, pred2) if 4 ** (y * y) <= 70000 else ref.classical_value(prob2.T.copy(), pred2.transpose(1, 0, 3, 2).copy())
+            cl_r = ctx.call(g2.classical_value)
+            if cl_r is not FAILED:
+                ctx.check("O3:classical=bruteforce", None, dev=abs(float(cl_r) - want2), tol=1e-9, sig=("two-repetitions", x, y), nt=True, mech="xor:classical-mismatch[reps=2]",
+                          detail={"prob": prob, "pred": pred, "library": cl_r, "bruteforce_on_product_game": want2})
     conv = ctx.call(game.to_nonlocal_game)
     if conv is not FAILED:
         cl2 = ctx.call(conv.classical_value)
